@@ -39,7 +39,9 @@ func ruleFuncValuesOfCorrectType(observers *Events, addError AddErrFunc, disable
 		}
 
 		rawVal, err := value.Value(nil)
-		if err != nil {
+		if err != nil && len(value.Children) == 0 && value.Kind != ast.Variable {
+			// A list or object whose conversion fails has an offending item, which is
+			// reported (or, inside a custom scalar, accepted) when that item is visited.
 			unexpectedTypeMessage(addError, value)
 		}
 
